@@ -317,6 +317,17 @@ def step (d : DState) (line : String) : DState × String :=
     match tick ts with
     | some (t, []) => let r := d.run.step d.cfg (fun _ _ _ _ => .stop) (.external t); ({ d with run := r }, "ok")
     | _ => (d, "bad-op")
+  | "ssend" :: ts =>
+    -- ssend <step> <wid> <target|_> <ev>: the running invocation (step, wid) calls ctx.send_event;
+    -- output: the tick that enters the mailbox (with the recovery counts the model gives it)
+    match (do let s ← nat; let w ← nat; let tgt ← optNat; let e ← ev; pure (s, w, tgt, e)) ts with
+    | some ((s, w, tgt, e), []) =>
+      match sendTick d.run.st s w e tgt with
+      | some t =>
+        let r := d.run.stepS d.cfg (fun _ _ _ _ => .stop) (.stepSend s w e tgt)
+        ({ d with run := r }, sTick t)
+      | none => (d, "no-invocation")
+    | _ => (d, "bad-op")
   | ["pull"] => let r := d.run.step d.cfg (fun _ _ _ _ => .stop) .pull; ({ d with run := r }, sRunner r)
   | ["timer"] => let r := d.run.step d.cfg (fun _ _ _ _ => .stop) .timer; ({ d with run := r }, sRunner r)
   | "setnow" :: ts =>
